@@ -83,6 +83,9 @@ pub enum RCmd {
     RecvAny { k: String, cancel: oneshot::Receiver<()> },
     RecvChunk { k: String, cancel: oneshot::Receiver<()> },
     Close { k: String, cancel: oneshot::Receiver<()> },
+    /// Receive one whole message following the documented protocol: recv_any, and after
+    /// `Received::Chunks` recv_chunk until it returns None or an error.
+    RecvMsg { k: String, side: usize, name: String, cancel: oneshot::Receiver<()> },
     SetMaxData { n: usize },
     Drop,
 }
@@ -290,6 +293,70 @@ fn receiver_actor(
                         biased;
                         _ = rxp.close() => done(&pending, &k, "ok".into()),
                         _ = cancel => cancelled(&pending, &k),
+                    }
+                }
+                RCmd::RecvMsg { k, side, name, cancel } => {
+                    pending.lock().unwrap().remove(&k);
+                    let fut = async {
+                        let k0 = format!("{k}.0");
+                        tr(format!("op recvany {k0} {} {name}", side_name(side)));
+                        pending.lock().unwrap().insert(k0.clone());
+                        let r = rxp.recv_any().await;
+                        let mut chunked = false;
+                        match r {
+                            Ok(Some(Received::Data(d))) => done(&pending, &k0, format!("data {}", hex(&Vec::<u8>::from(d)))),
+                            Ok(Some(Received::Chunks)) => {
+                                chunked = true;
+                                done(&pending, &k0, "chunks".into())
+                            }
+                            Ok(Some(Received::Requests(reqs))) => {
+                                let desc: Vec<String> = reqs.iter().map(|r| format!("{}:{}:{}", r.remote_port(), r.id(), r.is_wait() as u8)).collect();
+                                for (i, req) in reqs.into_iter().enumerate() {
+                                    let _ = produced.send(Produced::Req { name: format!("{k0}.{i}"), side, req });
+                                }
+                                done(&pending, &k0, format!("requests {}", if desc.is_empty() { "-".into() } else { desc.join(",") }));
+                            }
+                            Ok(None) => done(&pending, &k0, "none".into()),
+                            Err(RecvError::ChMux) => done(&pending, &k0, "err chmux".into()),
+                            Err(RecvError::ExceedsMaxDataSize(n)) => done(&pending, &k0, format!("err maxdata {n}")),
+                            Err(RecvError::ExceedsMaxPortCount(n)) => done(&pending, &k0, format!("err maxports {n}")),
+                        }
+                        let mut i = 1;
+                        while chunked {
+                            let ki = format!("{k}.{i}");
+                            tr(format!("op recvchunk {ki} {} {name}", side_name(side)));
+                            pending.lock().unwrap().insert(ki.clone());
+                            match rxp.recv_chunk().await {
+                                Ok(Some(d)) => done(&pending, &ki, format!("chunk {}", hex(&d))),
+                                Ok(None) => {
+                                    done(&pending, &ki, "none".into());
+                                    chunked = false;
+                                }
+                                Err(RecvChunkError::ChMux) => {
+                                    done(&pending, &ki, "err chmux".into());
+                                    chunked = false;
+                                }
+                                Err(RecvChunkError::Cancelled) => {
+                                    done(&pending, &ki, "err cancelled".into());
+                                    chunked = false;
+                                }
+                            }
+                            i += 1;
+                        }
+                    };
+                    tokio::select! {
+                        biased;
+                        _ = fut => {}
+                        _ = cancel => {
+                            // drop whichever sub-call was pending
+                            let mut p = pending.lock().unwrap();
+                            let subs: Vec<String> = p.iter().filter(|c| c.starts_with(&format!("{k}."))).cloned().collect();
+                            for c in subs {
+                                p.remove(&c);
+                                tr(format!("op cancel {c}"));
+                                tr(format!("cancelled {c}"));
+                            }
+                        }
                     }
                 }
                 RCmd::SetMaxData { n } => rxp.set_max_data_size(n),
@@ -523,6 +590,8 @@ impl World {
         self.collect();
         tr(format!("op {line}"));
         match t[0] {
+            // markers for the model driver only
+            "mode" | "expect-drained" | "note" => {}
             "cfg" => {
                 let kv = parse_kv(&t[2..]);
                 apply_cfg(&mut self.cfgs[side_idx(t[1])], &kv);
@@ -702,6 +771,29 @@ impl World {
                     }
                 };
                 let _ = s.send(cmd);
+            }
+            "flushstep" => {
+                // deliver what is queued on a wire one item at a time, settling after each
+                let w = side_idx(t[1]);
+                let mut guard = 0;
+                while self.wires[w].queued() > 0 && guard < 10_000 {
+                    tr(format!("op addrelease {} 1", t[1]));
+                    self.wires[w].add_release(1);
+                    self.settle().await;
+                    self.log_credits();
+                    tr(format!("settled pending={}", self.pending_list()));
+                    guard += 1;
+                }
+            }
+            "recvmsg" => {
+                let (k, side, name) = (t[1].to_string(), side_idx(t[2]), t[3].to_string());
+                let key = format!("{}@{}", t[3], t[2]);
+                let Some(r) = self.receivers.get(&key).cloned() else {
+                    tr(format!("ret {k} err no-such-handle"));
+                    return true;
+                };
+                let cancel = self.begin(&k);
+                let _ = r.send(RCmd::RecvMsg { k, side, name, cancel });
             }
             "recv" | "recvany" | "recvchunk" | "close" | "setmaxdata" => {
                 let (k, key) = (t[1].to_string(), format!("{}@{}", t[3], t[2]));
